@@ -249,7 +249,8 @@ func (o *Once) doSlow(f func()) {
 
 type Pool struct {
 	New   func() any
-	items []any
+	items [32]any // a fixed array: slice growth/copy is instrumented inside the runtime even for //go:norace callers
+	n     int
 	tok   int
 }
 
@@ -262,7 +263,11 @@ func (p *Pool) Put(x any) {
 		vrt.PointOp(&vrt.Op{Kind: "pool.Put", Obj: uintptr(unsafe.Pointer(p)), Write: true})
 	}
 	vrt.RaceRelease(&p.tok)
-	p.items = append(p.items, x)
+	if p.n == len(p.items) {
+		return // a pool may drop items at any time
+	}
+	p.items[p.n] = x
+	p.n++
 }
 
 //go:norace
@@ -270,7 +275,7 @@ func (p *Pool) Get() any {
 	if vrt.Running() {
 		vrt.PointOp(&vrt.Op{Kind: "pool.Get", Obj: uintptr(unsafe.Pointer(p)), Write: true})
 	}
-	n := len(p.items)
+	n := p.n
 	k := n // miss
 	if vrt.Running() {
 		k = vrt.Choose(n + 1)
@@ -279,7 +284,11 @@ func (p *Pool) Get() any {
 	}
 	if k < n {
 		x := p.items[k]
-		p.items = append(p.items[:k:k], p.items[k+1:]...)
+		for i := k; i+1 < n; i++ {
+			p.items[i] = p.items[i+1]
+		}
+		p.items[n-1] = nil
+		p.n--
 		vrt.RaceAcquire(&p.tok)
 		return x
 	}
